@@ -10,6 +10,18 @@ Go: `type Stream[T] struct { provider ProviderFunc[T]; allLifecycleElement []Lif
   * `FilterWithErAndCtx` shpan_stream.go:251-268, `MapWithErrAndCtx` map_stream.go:64-78, `Limit`/`Skip`
     paging.go:10-47, `Peek` (= Map): `newStream(<new provider closure over s.provider>, s.allLifecycleElement)`
         — the derived stream SHARES the parent's lifecycle slice value (same array, offset, len, cap).
+  * `mapStreamConcurrently` concurrent_stream.go:29-49 (`stream.Map(src, f, WithConcurrentMapOption(n))`):
+        `guardedSrc := newStream(src.provider, append([]Lifecycle{guard}, src.allLifecycleElement...))`
+        — a FRESH one-element array `[guard]`, then `append` of the parent's whole list to it (which allocates again
+        whenever the parent's list is non-empty): the guarded source's list is `guard :: parent's list` and shares no
+        array with the parent.  `guard = NewLifecycle(nil, c.stopProducer)`: no open function, close = stop the producer.
+        `NewDownStream(guardedSrc, c)` (down_stream.go:13-57, unsafe_stream_provider.go:69-139) wraps it: the child's own
+        slice is a fresh one-element `[]Lifecycle{wrapper}` whose open/close run `doOpenStream`/`doCloseSubStream` of
+        `guardedSrc`.  The model FLATTENS the wrapper: the child stream value is identified with its guarded source
+        (`lc` = the `guard :: parent's list` slice).  This keeps what the child denotes (the wrapper opens exactly that
+        list, front to back, then further elements of the child follow) and what is allocated/written at derivation
+        time; the only difference — the wrapper slice has cap 1, the flattened one `len + grow` — is covered by the
+        quantification over every growth choice.
   * `doOpenStream` shpan_stream.go:302-334 / `doCloseSubStream` :336-340 iterate `s.allLifecycleElement`
     front to back: materialising reads the slice through the heap.
 
@@ -31,12 +43,14 @@ inductive DataOp
   | limit2       -- `.Limit(2)`
   | skip1        -- `.Skip(1)`
   | peek         -- `.Peek(f)`
+  | concMapAdd10 -- `stream.Map(s, v+10, WithConcurrentMapOption(n))`: the same elements as a multiset, order unspecified
   deriving DecidableEq, Repr
 
 inductive Kind
   | withLifecycle (id : Nat)
   | withLock (id : Nat)
   | share (d : DataOp)
+  | concMap (guard : Nat)   -- the guard element is a lifecycle id of its own (not a probe of the harness)
   deriving DecidableEq, Repr
 
 /-- A `Stream` value. -/
@@ -66,7 +80,23 @@ def withAdditionalLifecycleNoClip (h : Heap Nat) (s : StreamV) (l : Nat) (g : Na
   let r := append h s.lc l g
   (r.1, { prov := s.prov, lc := r.2 })
 
-def deriveWith (wal : Heap Nat → StreamV → Nat → Nat → Heap Nat × StreamV) (st : DState) (op : DOp) : DState :=
+/-- concurrent_stream.go:44-47: `append([]Lifecycle{guard}, src.allLifecycleElement...)`. -/
+def concMapLifecycle (h : Heap Nat) (s : StreamV) (guard : Nat) (g : Nat) : Heap Nat × StreamV :=
+  let a := allocWith h [guard] 0                          -- the literal `[]Lifecycle{guard}` (len 1, cap 1)
+  let r := appendMany a.1 a.2 (view a.1 s.lc) g          -- append(<literal>, src.allLifecycleElement...)
+  (r.1, { prov := s.prov ++ [.concMapAdd10], lc := r.2 })
+
+/-- A wrong variant (`slices.Insert(src.allLifecycleElement, 0, guard)`): shifts the parent's elements inside the
+    parent's backing array when it has spare capacity. Only used by the witness theorem. -/
+def concMapLifecycleInsert (h : Heap Nat) (s : StreamV) (guard : Nat) (g : Nat) : Heap Nat × StreamV :=
+  if s.lc.len + 1 ≤ s.lc.cap then
+    (writeRange h s.lc.arr s.lc.off (guard :: view h s.lc),
+     { prov := s.prov ++ [.concMapAdd10], lc := { s.lc with len := s.lc.len + 1 } })
+  else
+    let a := allocWith h (guard :: view h s.lc) g
+    (a.1, { prov := s.prov ++ [.concMapAdd10], lc := a.2 })
+
+def deriveWith (wal cml : Heap Nat → StreamV → Nat → Nat → Heap Nat × StreamV) (st : DState) (op : DOp) : DState :=
   match st.streams[op.parent]? with
   | none => st
   | some s =>
@@ -79,12 +109,17 @@ def deriveWith (wal : Heap Nat → StreamV → Nat → Nat → Heap Nat × Strea
       { heap := r.1, streams := st.streams ++ [r.2] }
     | .share d =>      -- newStream(closure, s.allLifecycleElement)
       { heap := st.heap, streams := st.streams ++ [{ prov := s.prov ++ [d], lc := s.lc }] }
+    | .concMap g =>    -- mapStreamConcurrently
+      let r := cml st.heap s g op.grow
+      { heap := r.1, streams := st.streams ++ [r.2] }
 
-def derive : DState → DOp → DState := deriveWith withAdditionalLifecycle
-def deriveNoClip : DState → DOp → DState := deriveWith withAdditionalLifecycleNoClip
+def derive : DState → DOp → DState := deriveWith withAdditionalLifecycle concMapLifecycle
+def deriveNoClip : DState → DOp → DState := deriveWith withAdditionalLifecycleNoClip concMapLifecycle
+def deriveInsert : DState → DOp → DState := deriveWith withAdditionalLifecycle concMapLifecycleInsert
 
 def runD (st : DState) (ops : List DOp) : DState := ops.foldl derive st
 def runDNoClip (st : DState) (ops : List DOp) : DState := ops.foldl deriveNoClip st
+def runDInsert (st : DState) (ops : List DOp) : DState := ops.foldl deriveInsert st
 
 /-- `doOpenStream` then `doCloseSubStream`: the lifecycle ids opened, and closed, in call order. -/
 def materialise (h : Heap Nat) (s : StreamV) : List Nat × List Nat :=
@@ -96,6 +131,7 @@ def applyData : DataOp → List Int → List Int
   | .limit2, l => l.take 2
   | .skip1, l => l.drop 1
   | .peek, l => l
+  | .concMapAdd10, l => l.map (· + 10)   -- as a multiset; the harness compares sorted
 
 /-- The elements a (freshly built) stream delivers over root elements `src`. -/
 def dataOf (src : List Int) (prov : List DataOp) : List Int := prov.foldl (fun acc d => applyData d acc) src
@@ -114,6 +150,7 @@ def specDerive (ps : List (List Nat × List DataOp)) (op : DOp) : List (List Nat
     | .withLifecycle l => ps ++ [(p.1 ++ [l], p.2)]
     | .withLock l => ps ++ [(p.1 ++ [l], p.2)]
     | .share d => ps ++ [(p.1, p.2 ++ [d])]
+    | .concMap g => ps ++ [(g :: p.1, p.2 ++ [.concMapAdd10])]
 
 def specRun (ps : List (List Nat × List DataOp)) (ops : List DOp) : List (List Nat × List DataOp) :=
   ops.foldl specDerive ps
